@@ -108,4 +108,83 @@ example :
      pLexists Proofs.C06.Ex.fsLink [] Proofs.C06.Ex.entThrough.loc = false) :=
   ⟨Proofs.C06.Ex.hyps_on, Proofs.C06.Ex.hyps_through⟩
 
+/-! ### `fs.mkdirs(parent)` works on the path STRING (`os.makedirs`): `.` and `..` components -/
+
+/-- Recorded `Path=/w/gone/../precious.txt`; `/w/precious.txt` exists, `/w/gone` does not.  Nothing
+    `lexists` at the destination as spelled (`/w/gone` is missing), so the entry is not refused;
+    `isdir("/w/gone/..")` is false; `os.makedirs("/w/gone/..")` makes the head `/w/gone`, then
+    `mkdir("/w/gone/..")` fails with `EEXIST`, which is raised.  The run: the restore fails with
+    `EEXIST`, the directory `/w/gone` HAS BEEN CREATED, `/w/precious.txt` is what it was, info file
+    and payload are still in the trash; exactly two `mkdir` calls were issued (trace newest first). -/
+theorem restore_dotdot_through_missing_creates_dir :
+    let r := run noFaults (restoreOne [] false Proofs.C06.Ex.entDots) { fs := Proofs.C06.Ex.fsDots }
+    r.1 = .error .EEXIST ∧
+    Proofs.C06.Ex.fsDots.get [b "w", b "gone"] = none ∧ r.2.fs.get [b "w", b "gone"] = some (.dir 0o755 0) ∧
+    r.2.fs.get [b "w", b "precious.txt"] = Proofs.C06.Ex.fsDots.get [b "w", b "precious.txt"] ∧
+    r.2.fs.get [b "t", b "info", b "p.trashinfo"] = Proofs.C06.Ex.fsDots.get [b "t", b "info", b "p.trashinfo"] ∧
+    r.2.fs.get [b "t", b "files", b "p"] = Proofs.C06.Ex.fsDots.get [b "t", b "files", b "p"] ∧
+    r.2.trace = [(.mkdir [b "w"] 0o777, .error .EEXIST), (.mkdir [b "w", b "gone"] 0o777, .ok ())] :=
+  Proofs.C06.Ex.restore_dotdot_through_missing_creates_dir
+
+/-- … the world and the branch taken: the entry's location is `/w/gone/../precious.txt`, nothing
+    `lexists` there, its parent is not a directory, no dangling link stands on the way, and the
+    parent string has a dot component (so the string-level `makedirsStr` runs). -/
+example : Proofs.C06.Ex.entDots.loc = b "/w/gone/../precious.txt" ∧
+    pLexists Proofs.C06.Ex.fsDots [] Proofs.C06.Ex.entDots.loc = false ∧
+    pIsdir Proofs.C06.Ex.fsDots [] (dirname Proofs.C06.Ex.entDots.loc) = false ∧
+    danglingOnPath Proofs.C06.Ex.fsDots [] (dirname Proofs.C06.Ex.entDots.loc) = none ∧
+    hasDotComp (dirname Proofs.C06.Ex.entDots.loc) = true := ⟨rfl, Proofs.C06.Ex.hyps_dots⟩
+
+/-- What a restore without --overwrite that never reached its `rename` can have done, in general
+    and under every fault oracle: it failed, it issued nothing but `mkdir` calls, and every path
+    holds what it held — or a directory that is new, or that was a directory of the same mode (its
+    mtime may be fresh: an entry was added to it).  In particular every existing file, link and
+    directory survives, payload and info file included.  (`restore_refuses_existing` and
+    `restore_blocked_by_dangling_parent` are the cases where not even a `mkdir` is issued;
+    `restore_dotdot_through_missing_creates_dir` is a case where directories are left behind.) -/
+theorem restore_without_rename_only_makes_dirs (φ : Oracle) (cwd : CPath) (e : Entry) (fs : FS) :
+    let r := run φ (restoreOne cwd false e) { fs := fs }
+    (∀ a c res, (Call.rename a c, res) ∉ r.2.trace) →
+    (∃ er, r.1 = .error er) ∧ (∀ cr ∈ r.2.trace, ∃ p m, cr.1 = .mkdir p m) ∧
+    ∀ q, r.2.fs.get q = fs.get q ∨
+      ∃ m t, r.2.fs.get q = some (.dir m t) ∧ (fs.get q = none ∨ ∃ t', fs.get q = some (.dir m t')) :=
+  Proofs.C06.restore_without_rename_only_makes_dirs φ cwd e fs
+
+/-- The destination is looked at AGAIN once `fs.mkdirs(parent)` is done (fix c1a65fe; before it an
+    existing file could be replaced without --overwrite).  Recorded
+    `Path=/w/gone/../sub/./precious.txt`; `/w/sub/precious.txt` exists, `/w/gone` does not.  The first
+    probe `lexists(destination)` fails (`/w/gone` is missing), so the entry is not refused at once;
+    `os.makedirs("/w/gone/../sub/.")` makes `/w/gone`, swallows the `FileExistsError` of
+    `mkdir("/w/gone/..")` and of `mkdir("/w/gone/../sub")`, and returns at the tail `.`; the
+    destination string now resolves to the existing file, and the second probe refuses the entry:
+    `EEXIST` (the same refusal as the first), `/w/sub/precious.txt` keeps its content, payload and
+    info file are still in the trash, the directory `/w/gone` stays; three `mkdir` calls, no `rename`. -/
+theorem restore_dot_after_dotdot_refused :
+    pLexists Proofs.C06.Ex.fsClobber [] Proofs.C06.Ex.entClobber.loc = false ∧
+    (let r := run noFaults (restoreOne [] false Proofs.C06.Ex.entClobber) { fs := Proofs.C06.Ex.fsClobber }
+     r.1 = .error .EEXIST ∧
+     pLexists r.2.fs [] Proofs.C06.Ex.entClobber.loc = true ∧
+     r.2.fs.get [b "w", b "sub", b "precious.txt"] = some (.file (b "precious") 0o644 7) ∧
+     r.2.fs.get [b "w", b "gone"] = some (.dir 0o755 0) ∧ Proofs.C06.Ex.fsClobber.get [b "w", b "gone"] = none ∧
+     r.2.fs.get [b "t", b "files", b "p"] = Proofs.C06.Ex.fsClobber.get [b "t", b "files", b "p"] ∧
+     r.2.fs.get [b "t", b "info", b "p.trashinfo"] = Proofs.C06.Ex.fsClobber.get [b "t", b "info", b "p.trashinfo"] ∧
+     (Proofs.C06.Ex.fsClobber.get [b "t", b "files", b "p"]).isSome = true ∧
+     r.2.trace = [(.mkdir [b "w", b "sub"] 0o777, .error .EEXIST), (.mkdir [b "w"] 0o777, .error .EEXIST),
+                  (.mkdir [b "w", b "gone"] 0o777, .ok ())]) :=
+  Proofs.C06.Ex.restore_dot_after_dotdot_refused
+
+/-- Without --overwrite nothing is ever renamed over an existing node — in general, under every
+    fault oracle, whatever the recorded path (dot components, links, missing parents): every `rename`
+    the restore of an entry issues (successful or not; there is at most one, `shutil.move`'s) is
+    issued in a state in which nothing is at its destination.  `hist` holds the file system before
+    each call of `trace` (both newest first, of the same length), so
+    `(x, (rename a d, res)) ∈ zip hist trace` says that `x` is the state `rename a d` was issued in.
+    (The copy fallback after a failed `rename` issues no `rename`; it creates its destination with
+    `mkdir`/`symlink`/`open(…,'wb')` at the same, still free, path.) -/
+theorem restore_never_clobbers (φ : Oracle) (cwd : CPath) (e : Entry) (fs : FS) :
+    let r := run φ (restoreOne cwd false e) { fs := fs }
+    r.2.hist.length = r.2.trace.length ∧
+    ∀ x a d res, (x, (Call.rename a d, res)) ∈ r.2.hist.zip r.2.trace → x.get d = none :=
+  Proofs.C06.restore_never_clobbers φ cwd e fs
+
 end TrashVerif.C06
